@@ -233,6 +233,21 @@ func c16(args []string) {
 		base := s.Clone()
 		jobs = append(jobs, &job{s: s, exp: evalRef(base, nil), cfg: Cfg{Buf: 3, Procs: 2, SoftSec: 8}, kind: "unconnected", what: "check." + which + " of the out-port-less last process", base: base})
 	}
+	// a large workflow: 500 Go-function processes without inputs (each runs in-process the moment it is started) and one
+	// process with an unconnected in-port - the refusal comes before any of them has run
+	for rep := 0; rep < c.Pick(30, 80); rep++ {
+		s := &spec.Spec{Name: fmt.Sprintf("bigunconnected%d", rep), MaxTasks: 8, Sources: map[string]string{"u.txt": "u"}}
+		for k := 0; k < 500; k++ {
+			n := fmt.Sprintf("g%03d", k)
+			s.Procs = append(s.Procs, &spec.Proc{Name: n, Kind: spec.KGoFunc, Cmd: spec.BuildCmd(n, nil, []spec.PortDecl{{Name: "out"}}, nil, nil, nil)})
+		}
+		s.Procs = append(s.Procs, &spec.Proc{Name: "src", Kind: spec.KFileSource, Files: []string{"u.txt"}},
+			&spec.Proc{Name: "two", Kind: spec.KCmd, Cmd: spec.BuildCmd("two", []spec.PortDecl{{Name: "a"}, {Name: "b"}}, []spec.PortDecl{{Name: "out"}}, nil, nil, nil)})
+		s.Conns = append(s.Conns, &spec.Conn{From: "src.out", To: "two.a"})
+		base := s.Clone()
+		base.Conns = append(base.Conns, &spec.Conn{From: "src.out", To: "two.b"})
+		jobs = append(jobs, &job{s: s, exp: evalRef(base, nil), cfg: Cfg{Buf: 3, Procs: []int{2, 8}[rep%2], SoftSec: 20, NoHooks: true}, kind: "unconnected", what: "two.b in a workflow of 502 processes", base: base})
+	}
 	// a parameter source (and a file source) feeding both a selected and an excluded process, more items than the buffer
 	for _, nv := range []int{3, 7} {
 		s := &spec.Spec{Name: fmt.Sprintf("sharedparams%d", nv), MaxTasks: 4, Sources: map[string]string{}}
